@@ -163,6 +163,18 @@ CLAIMED['C16'] = dict(
          'Object non-mutation is observed, not proved. Fixed in /repo: F12a/b (exclusions tested against the item, matched_paths before the skip test), F12c (quotes in keys), '
          'F12d (walking str methods for a None item), F12e (loose numbers under case-insensitive search).',
     technique='Lean 4 proof (mutual structural induction for soundness, induction over reachability derivations for completeness) + differential correspondence + independent reference')
+CLAIMED['C11'] = dict(
+    text='PARTIAL. Lean 4 theorem over an option-aware port of the ordered _diff family (type groups, _diff_str, _diff_numbers with number_to_string / isclose on exact decimals, key '
+         'cleaning in _diff_dict, exclude_types, the DeepHash pre-image of set members): values that are similar under the options (position by position, dict keys by cleaned key: '
+         'letter case, str/bytes, int/float of equal value, equal significant-digit rendering, within math_epsilon, excluded types, private keys) give an empty diff, for every option set, '
+         'threshold, size and nesting, both alignment modes and every alignment oracle; each normaliser is proved to land in '
+         'the similarity relation. The model is tied to the code by comparing the complete text view under random option '
+         'sets. Clauses (2) plain-empty => option-empty and (3) no option makes DeepDiff raise, and the datetime / nan / enum options, are decided on the implementation over generated '
+         'values x single options and all pairs; their Lean theorems are not proved.',
+    design='5/C11',
+    note='Trusted: Lean kernel; binary floating point rounding in number_to_string and isclose (the model uses exact decimals; inexact ties are outside the '
+         'universe); datetime / zoneinfo. truncate_datetime, default_timezone, ignore_nan_inequality, use_enum_value: observed only. Fixed in /repo: F9, F26, F27.',
+    technique='Lean 4 proof (mutual structural induction over a similarity relation) + differential correspondence under options; monotonicity and totality by evaluation')
 NA = {}
 
 checks = []
